@@ -31,7 +31,11 @@ static O_LAST: std::sync::Mutex<Option<(tokio::time::Instant, u64)>> = std::sync
 static O_CONSEC: AtomicU64 = AtomicU64::new(0);
 static SPINS: AtomicU64 = AtomicU64::new(0);
 
-fn spin_guard(last: &std::sync::Mutex<Option<(tokio::time::Instant, u64)>>, consec: &AtomicU64, who: &str) {
+fn spin_guard(
+    last: &std::sync::Mutex<Option<(tokio::time::Instant, u64)>>,
+    consec: &AtomicU64,
+    who: &str,
+) {
     // only meaningful inside a runtime with a (paused) clock
     if tokio::runtime::Handle::try_current().is_err() {
         return;
@@ -66,4 +70,283 @@ pub fn master_sched_count() -> u64 {
 }
 pub fn ticks() -> u64 {
     outstation_idle_count() + master_sched_count()
+}
+
+// ---- H6: structural audit of the outstation's event buffer -------------------------
+// The facts are produced inside the database (under its own mutex) at every point where
+// that mutex is about to be released by the outstation or by a user transaction; the audit
+// below recomputes every counter from the records and checks the list's links. Failures are
+// queued for the running check (`take_audit_failures`), never panicked on.
+use crate::outstation::database::EventBufferConfig;
+use crate::outstation::BufferState;
+
+pub struct ListFacts {
+    pub forward: Vec<usize>,
+    pub backward: Vec<usize>,
+    pub size: usize,
+    pub slots: usize,
+    pub free: Vec<usize>,
+    pub is_free: Vec<bool>,
+}
+
+pub struct RecordFacts {
+    pub id: u64,
+    pub index: u16,
+    pub class: u8,
+    pub type_tag: u8,
+    pub state: u8,
+}
+
+pub struct BufferFacts {
+    pub list: ListFacts,
+    pub records: Vec<RecordFacts>,
+    pub total: BufferState,
+    pub written: BufferState,
+    pub config: EventBufferConfig,
+    pub is_overflown: bool,
+    pub next: u64,
+}
+
+#[derive(Clone, Debug)]
+pub struct AuditFailure {
+    pub site: &'static str,
+    pub rule: &'static str,
+    pub detail: String,
+}
+
+static AUDITS: AtomicU64 = AtomicU64::new(0);
+static AUDIT_RECORDS: AtomicU64 = AtomicU64::new(0);
+static AUDIT_FAILS: std::sync::Mutex<Vec<AuditFailure>> = std::sync::Mutex::new(Vec::new());
+static AUDIT_STATES: std::sync::Mutex<Option<std::collections::HashSet<u64>>> =
+    std::sync::Mutex::new(None);
+static AUDIT_SITES: std::sync::Mutex<Option<std::collections::BTreeMap<&'static str, u64>>> =
+    std::sync::Mutex::new(None);
+
+fn type_counts(s: &BufferState) -> [usize; 8] {
+    let t = &s.types;
+    [
+        t.num_binary_input,
+        t.num_double_bit_binary_input,
+        t.num_binary_output_status,
+        t.num_counter,
+        t.num_frozen_counter,
+        t.num_analog,
+        t.num_analog_output_status,
+        t.num_octet_string,
+    ]
+}
+
+fn class_counts(s: &BufferState) -> [usize; 3] {
+    [
+        s.classes.num_class_1,
+        s.classes.num_class_2,
+        s.classes.num_class_3,
+    ]
+}
+
+fn type_max(c: &EventBufferConfig) -> [usize; 8] {
+    [
+        c.max_binary as usize,
+        c.max_double_binary as usize,
+        c.max_binary_output_status as usize,
+        c.max_counter as usize,
+        c.max_frozen_counter as usize,
+        c.max_analog as usize,
+        c.max_analog_output_status as usize,
+        c.max_octet_string as usize,
+    ]
+}
+
+pub fn audit_event_buffer(site: &'static str, f: BufferFacts) {
+    AUDITS.fetch_add(1, Ordering::Relaxed);
+    AUDIT_RECORDS.fetch_add(f.records.len() as u64, Ordering::Relaxed);
+    {
+        let mut g = AUDIT_SITES.lock().unwrap_or_else(|e| e.into_inner());
+        *g.get_or_insert_with(Default::default)
+            .entry(site)
+            .or_insert(0) += 1;
+    }
+    let mut fails: Vec<(&'static str, String)> = vec![];
+    // the list
+    let l = &f.list;
+    if l.forward.len() != l.size {
+        fails.push((
+            "L1.forward_length",
+            format!(
+                "walk from the head visits {} entries, size says {}",
+                l.forward.len(),
+                l.size
+            ),
+        ));
+    }
+    let mut rev = l.backward.clone();
+    rev.reverse();
+    if rev != l.forward {
+        fails.push((
+            "L1.links_disagree",
+            format!("forward {:?} backward {:?}", l.forward, l.backward),
+        ));
+    }
+    let mut seen = vec![0u8; l.slots];
+    for &i in &l.forward {
+        if i < l.slots {
+            seen[i] += 1;
+            if l.is_free[i] {
+                fails.push(("L2.linked_entry_marked_free", format!("slot {i}")));
+            }
+        }
+    }
+    for &i in &l.free {
+        if i >= l.slots {
+            fails.push((
+                "L2.free_index_out_of_range",
+                format!("slot {i} of {}", l.slots),
+            ));
+            continue;
+        }
+        seen[i] += 1;
+        if !l.is_free[i] {
+            fails.push(("L2.free_stack_entry_in_use", format!("slot {i}")));
+        }
+    }
+    if let Some(i) = seen.iter().position(|&n| n != 1) {
+        fails.push((
+            "L3.slot_not_accounted_once",
+            format!(
+                "slot {i} is referenced {} times by the list and the free stack together",
+                seen[i]
+            ),
+        ));
+    }
+    let max = type_max(&f.config);
+    if l.slots > max.iter().sum::<usize>() {
+        fails.push((
+            "L4.more_slots_than_capacity",
+            format!("{} slots, capacity {}", l.slots, max.iter().sum::<usize>()),
+        ));
+    }
+    // the counters
+    let mut by_type = [0usize; 8];
+    let mut by_class = [0usize; 3];
+    let mut w_type = [0usize; 8];
+    let mut w_class = [0usize; 3];
+    let mut prev: Option<u64> = None;
+    for r in &f.records {
+        by_type[r.type_tag as usize] += 1;
+        by_class[r.class as usize - 1] += 1;
+        if r.state == 2 {
+            w_type[r.type_tag as usize] += 1;
+            w_class[r.class as usize - 1] += 1;
+        }
+        if prev.map_or(false, |p| p >= r.id) || r.id >= f.next {
+            fails.push((
+                "A4.ids_not_increasing",
+                format!("id {} after {:?}, next {}", r.id, prev, f.next),
+            ));
+        }
+        prev = Some(r.id);
+    }
+    if f.records.len() != l.size {
+        fails.push((
+            "A6.iteration_length",
+            format!("{} records iterated, size {}", f.records.len(), l.size),
+        ));
+    }
+    if type_counts(&f.total) != by_type || class_counts(&f.total) != by_class {
+        fails.push((
+            "A1.total_counters",
+            format!(
+                "counters say types {:?} classes {:?}; the buffer holds types {:?} classes {:?}",
+                type_counts(&f.total),
+                class_counts(&f.total),
+                by_type,
+                by_class
+            ),
+        ));
+    }
+    if type_counts(&f.written) != w_type || class_counts(&f.written) != w_class {
+        fails.push((
+            "A2.written_counters",
+            format!(
+                "counters say types {:?} classes {:?}; written records are types {:?} classes {:?}",
+                type_counts(&f.written),
+                class_counts(&f.written),
+                w_type,
+                w_class
+            ),
+        ));
+    }
+    for t in 0..8 {
+        if by_type[t] > max[t] {
+            fails.push((
+                "A3.type_over_capacity",
+                format!("type {t}: {} events, capacity {}", by_type[t], max[t]),
+            ));
+        }
+    }
+    if f.is_overflown && !(0..8).any(|t| max[t] > 0 && by_type[t] >= max[t]) {
+        fails.push((
+            "A5.overflow_without_full_type",
+            format!("types {:?} capacities {:?}", by_type, max),
+        ));
+    }
+    // what was seen
+    {
+        let mut h: u64 = 0xcbf29ce484222325;
+        let mut mix = |v: u64| {
+            h ^= v;
+            h = h.wrapping_mul(0x100000001b3);
+        };
+        for t in 0..8 {
+            mix(by_type[t].min(6) as u64);
+            mix(w_type[t].min(3) as u64);
+            mix((max[t] > 0 && by_type[t] >= max[t]) as u64);
+        }
+        for c in 0..3 {
+            mix(by_class[c].min(3) as u64);
+            mix(w_class[c].min(2) as u64);
+        }
+        mix(f.is_overflown as u64);
+        mix(f.records.iter().filter(|r| r.state == 1).count().min(3) as u64);
+        mix(l.free.len().min(4) as u64);
+        let mut g = AUDIT_STATES.lock().unwrap_or_else(|e| e.into_inner());
+        let set = g.get_or_insert_with(Default::default);
+        if set.len() < 200_000 {
+            set.insert(h);
+        }
+    }
+    if !fails.is_empty() {
+        let mut g = AUDIT_FAILS.lock().unwrap_or_else(|e| e.into_inner());
+        for (rule, detail) in fails {
+            if g.len() < 200 {
+                g.push(AuditFailure { site, rule, detail });
+            }
+        }
+    }
+}
+
+pub fn take_audit_failures() -> Vec<AuditFailure> {
+    std::mem::take(&mut *AUDIT_FAILS.lock().unwrap_or_else(|e| e.into_inner()))
+}
+
+/// (audits run, records walked, distinct abstract buffer states audited)
+pub fn audit_stats() -> (u64, u64, u64) {
+    let d = AUDIT_STATES
+        .lock()
+        .unwrap_or_else(|e| e.into_inner())
+        .as_ref()
+        .map_or(0, |s| s.len() as u64);
+    (
+        AUDITS.load(Ordering::Relaxed),
+        AUDIT_RECORDS.load(Ordering::Relaxed),
+        d,
+    )
+}
+
+pub fn audit_sites() -> Vec<(&'static str, u64)> {
+    AUDIT_SITES
+        .lock()
+        .unwrap_or_else(|e| e.into_inner())
+        .as_ref()
+        .map_or(vec![], |m| m.iter().map(|(k, v)| (*k, *v)).collect())
 }
